@@ -378,7 +378,7 @@ CHECKS['C14'] = dict(
                                  "the monitor shares one relaxed atomic counter between threads (no happens-before edge) and nothing else"],
     evals_counter='processes',
     runs=[
-        dict(h='h_c14.c', mode='threads', flavour='tsan', n={'quick': 480, 'thorough': 6000}, timeout={'quick': 1500, 'thorough': 7200}),
+        dict(h='h_c14.c', mode='threads', flavour='tsan', n={'quick': 480, 'thorough': 6000}, timeout={'quick': 2700, 'thorough': 14400}),
         dict(h='h_c14.c', mode='threads', flavour='prod', n={'quick': 960, 'thorough': 12000}),
     ],
     min_nontrivial={'quick': 1000, 'thorough': 10000},
@@ -462,7 +462,7 @@ CHECKS['C09'] = dict(
                                  "the stimulus has a quiet background (speech-like bursts over -60 dB noise), as the decay clause requires"],
     evals_counter='patterns',
     runs=[
-        dict(h='h_c09.c', mode='window', flavour='prod', n={'quick': 320, 'thorough': 640}, args={'quick': ['k=8'], 'thorough': ['k=12']}, timeout={'quick': 1800, 'thorough': 14400}),
+        dict(h='h_c09.c', mode='window', flavour='prod', n={'quick': 320, 'thorough': 640}, args={'quick': ['k=8'], 'thorough': ['k=12']}, timeout={'quick': 2700, 'thorough': 21600}),
         dict(h='h_c09.c', mode='burst', flavour='prod', n={'quick': 640, 'thorough': 16000}),
         dict(h='h_c09.c', mode='window', flavour='asan', n={'quick': 32, 'thorough': 320}, args={'quick': ['k=6'], 'thorough': ['k=8']}),
         dict(h='h_c09.c', mode='window', flavour='prod-fixed', n={'quick': 96, 'thorough': 320}, args={'quick': ['k=8'], 'thorough': ['k=10']}),
